@@ -66,6 +66,13 @@ LawLimit == 400
 NoRawControl(s) == \A i \in 1..Len(s) : s[i] >= 32 /\ s[i] # 127
 
 \* library ---------------------------------------------------------------------
+\* unary minus (operator.go funcOpNegate): ints and doubles arithmetically, a kept literal by editing its text - in every case the text of the
+\* result is the text of the operand with its leading "-" toggled (the integer 0 and NaN excepted)
+NegNumBytes(v) ==
+  IF v.t = "flt" /\ FloatIsNull(v) THEN NullBytes
+  ELSE LET b == NumberBytes(v) IN
+       IF v.t = "int" /\ b = <<48>> THEN b
+       ELSE IF b[1] = 45 THEN Tail(b) ELSE <<45>> \o b
 LibChecks(v, r, i) ==
   LET e == Enc(v)
       tj == ToJSONOf(e)
@@ -79,6 +86,8 @@ LibChecks(v, r, i) ==
      Check("ijson", i, r.ijson = InterpOf(<<60>>, tj, <<62>>), e),
      Check("itext", i, r.itext = InterpOf(<<60>>, ts, <<62>>), ts.b),
      Check("roundtrip", i, Val(r.rt) = Norm(v), Enc(Norm(v))),                 \* tojson|fromjson
+     Check("neg", i, "neg" \notin DOMAIN r \/ ~IsNumberV(v) \/ (v.t = "flt" /\ v.k = "nan") \/ r.neg = ToJSONOf(NegNumBytes(v)), IF IsNumberV(v) THEN NegNumBytes(v) ELSE <<>>),
+     Check("negneg", i, "negneg" \notin DOMAIN r \/ ~IsNumberV(v) \/ r.negneg = ToJSONOf(IF v.t = "flt" /\ FloatIsNull(v) /\ v.k # "nan" THEN NumberBytes(v) ELSE e), e),
      \* the property stated on the real bytes, with the specification's reader
      Check("marshal.wellformed", i,
          /\ r.marshal.t = "bytes"                            \* not an error / panic record
